@@ -282,7 +282,7 @@ func TestC39(t *testing.T) {
 	for i := 0; i < nb; i++ {
 		sfx := suffixes[i%len(suffixes)]
 		var b []byte
-		switch r.Intn(4) {
+		switch r.Intn(5) {
 		case 0:
 			b = gen.Bytes(r, r.Intn(12))
 		case 1:
@@ -290,6 +290,18 @@ func TestC39(t *testing.T) {
 				`{"Info":{"PieceLength":-1,"PieceSums":[1],"Name":"zz","Length":5}}`}[r.Intn(13)])
 		case 2:
 			b = gen.Bytes(r, r.Intn(64))
+		case 3:
+			// a valid serialization cut short (incl. to nothing), or with continuation bits set to the end
+			src := validSerialization(r, sfx)
+			if len(src) > 0 {
+				src = src[:r.Intn(len(src))]
+			}
+			if r.Intn(3) == 0 {
+				for j := range src {
+					src[j] |= 0x80
+				}
+			}
+			b = src
 		default:
 			// a valid serialization with one byte damaged
 			src := validSerialization(r, sfx)
@@ -307,7 +319,12 @@ func TestC39(t *testing.T) {
 				}
 			}()
 			m := metadata.CreateFromSuffix(sfx)
-			if err := m.Deserialize(b); err != nil {
+			err := m.Deserialize(b)
+			// parsing accepts only well-formed input: independent recognisers for the two small formats
+			if want, known := wellFormed(sfx, b); known && (err == nil) != want {
+				run.Violation(fmt.Sprintf("deserialize-accepts=%v-but-wellformed=%v/%s", err == nil, want, sfx), hex.EncodeToString(b), fmt.Sprintf("%q", b))
+			}
+			if err != nil {
 				run.Count("random_rejected"+sfx, 1)
 				return
 			}
@@ -336,6 +353,28 @@ func TestC39(t *testing.T) {
 
 	// ---- handshakes over real TCP ---------------------------------------------------
 	handshakes(t, run, r, run.N(250, 8000))
+}
+
+// wellFormed is a reference recogniser, written from the formats' definitions: an access time is one
+// complete signed varint at the start of the buffer (at most 10 bytes, the 10th at most 1); a persist flag
+// is one of the boolean spellings. known=false for formats without a small independent definition.
+func wellFormed(sfx string, b []byte) (ok bool, known bool) {
+	switch sfx {
+	case "_last_access_time":
+		for i := 0; i < len(b) && i < 10; i++ {
+			if b[i] < 0x80 {
+				return i < 9 || b[i] <= 1, true
+			}
+		}
+		return false, true
+	case "_persist":
+		switch string(b) {
+		case "1", "t", "T", "TRUE", "true", "True", "0", "f", "F", "FALSE", "false", "False":
+			return true, true
+		}
+		return false, true
+	}
+	return false, false
 }
 
 func validSerialization(r *rand.Rand, sfx string) []byte {
